@@ -690,7 +690,11 @@ func (v *Visitor) resolveSkipArrayItem(fieldRef int, fieldName string, enclosing
 			shouldIncludeDeprecated := false
 
 			if includeDeprecatedVariableName != "" {
-				shouldIncludeDeprecated = ctx.Variables.GetBool(includeDeprecatedVariableName)
+				// the operation's variable names may have been remapped (ctx.RemapVariables) while the
+				// variables JSON keeps the original names: look the value up through the view
+				if value := ctx.VariablesView().Get(includeDeprecatedVariableName); value != nil {
+					shouldIncludeDeprecated = value.Type() == astjson.TypeTrue
+				}
 			}
 
 			isDeprecated := itemValue.GetBool("isDeprecated")
